@@ -88,12 +88,13 @@ class ChoiceRandom(random.Random):
 
     def sample(self, population, k, **kw):
         pop = list(population)
-        if k != len(pop):
-            raise common.HarnessError("ChoiceRandom.sample called with k != len(population)")
-        if k > 4:
+        if len(pop) > 4:
             raise common.HarnessError("population too large for permutation enumeration")
-        perms = list(itertools.permutations(range(k)))
-        p = perms[W.ch.choose("perm%d" % k, len(perms))]
+        if k > len(pop) or k < 0:
+            raise ValueError("Sample larger than population or is negative")
+        # k == len(pop) in the code as it stands; a draw of fewer (k-permutations) is left to the acceptors to judge
+        perms = list(itertools.permutations(range(len(pop)), k))
+        p = perms[W.ch.choose("perm%d" % k if k == len(pop) else "perm%d_%d" % (len(pop), k), len(perms))]
         W.rec("sample", [getattr(x, "agent_id", None) for x in pop], p, k)
         return [pop[i] for i in p]
 
@@ -120,7 +121,7 @@ class ProbeMixin:
         returned = getattr(o, "_vf_returned", None)
         pre = (o.is_buy, o.kind, o.price, o.volume, o.ttl, o.placed_at, o.order_id)
         info = dict(running=self._is_running, mp=self.get_market_price(), mp0=self.get_market_price(0),
-                    all_running=all(m.is_running for m in self.simulator.markets))
+                    all_running=all(m.is_running for m in self.simulator.markets), t=self.time)
         l = super()._add_order(*a, **k)
         post = (o.order_id, o.market_id, o.placed_at, o.agent_id, o.is_buy, o.kind, o.volume, o.price, o.ttl)
         W.rec("acc", self.market_id, l, o, pre, returned, post, info)
@@ -131,7 +132,7 @@ class ProbeMixin:
         l = super()._cancel_order(*a, **k)
         o = c.order
         post = (o.order_id, o.market_id, c.placed_at, o.placed_at, o.agent_id, o.is_buy, o.kind, o.volume, o.price, o.ttl)
-        W.rec("can", self.market_id, l, o, post, dict(running=self._is_running, all_running=all(m.is_running for m in self.simulator.markets)))
+        W.rec("can", self.market_id, l, o, post, dict(running=self._is_running, all_running=all(m.is_running for m in self.simulator.markets), t=self.time))
         return l
 
     def _execution(self):
